@@ -1,5 +1,5 @@
 """Re-validate every filed seeded change against /repo as it is now: patch applies, demo passes clean / fails patched, the property's
-check reports a VIOLATION.  usage: seed_sweep.py [--tier quick] [--jobs 4] [ids…]   Writes seeded/SWEEP.json and refreshes each meta.json's `check`."""
+check reports a VIOLATION.  usage: seed_sweep.py [--tier quick] [--jobs 4] [ids…]   Writes seeded/SWEEP.json (a run with ids updates those entries only) and refreshes each meta.json's `check`."""
 import argparse, json, os, subprocess, sys, time
 from concurrent.futures import ThreadPoolExecutor
 ROOT = os.path.dirname(os.path.dirname(os.path.abspath(__file__)))
@@ -26,5 +26,10 @@ with ThreadPoolExecutor(a.jobs) as ex:
             m = json.load(open(mp)); m["check"].update({"exit": res.get("check_rc"), "detected": res.get("detected"), "seconds": res.get("check_s"), "tier": a.tier,
                                                         "revalidated_at_repo_commit": subprocess.run(["git", "-C", "/repo", "rev-parse", "--short", "HEAD"], capture_output=True, text=True).stdout.strip()})
             json.dump(m, open(mp, "w"), indent=1, ensure_ascii=False)
-json.dump({"tier": a.tier, "seed": a.seed, "wall_s": round(time.time() - t0), "results": out}, open(os.path.join(ROOT, "seeded", "SWEEP.json"), "w"), indent=1)
+sp = os.path.join(ROOT, "seeded", "SWEEP.json")
+if a.ids and os.path.exists(sp):          # a partial sweep updates the entries of the last complete one instead of replacing it
+    prev = json.load(open(sp)); byid = {o["id"]: o for o in prev.get("results", [])}; byid.update({o["id"]: o for o in out})
+    json.dump(dict(prev, results=[byid[k] for k in sorted(byid)], partial_update={"ids": sorted(o["id"] for o in out), "seed": a.seed}), open(sp, "w"), indent=1)
+else:
+    json.dump({"tier": a.tier, "seed": a.seed, "wall_s": round(time.time() - t0), "results": out}, open(sp, "w"), indent=1)
 print("detected", sum(1 for o in out if o.get("detected")), "of", len(out))
